@@ -40,3 +40,13 @@ package cleaner
 //@   modifies IdleInvoker.useCount, IdleInvoker.wakeup, closed
 //@   trustframe -- rely: the cleaner callback (an arbitrary function value) does not write state of the callers of Release
 //@   ghostset acquired[i] = old(acquired(i)) - 1
+
+// A chain of cleaners fails when any of its cleaners failed (so that an action
+// does not start after an incomplete cleaning): a later success never hides an
+// earlier failure. cleanfailed(nil): 1 once a cleaner of the chain has failed.
+//@ ghost map cleanfailed(ref) int zero
+//@ func NewChainedCleaner$1
+//@   props C12
+//@   at call dyn#1 ghostset cleanfailed[nil] = ite(r0 != nil, 1, cleanfailed(nil))
+//@   loop 0 invariant cleanfailed(nil) == 1 ==> chainedErr != nil
+//@   ensures a-failed-cleaner-fails-the-chain: cleanfailed(nil) == 1 ==> r0 != nil
